@@ -174,6 +174,17 @@ CHECKS = {
              "are replayed and must reproduce identically.",
         note="Function-call granularity under the GIL; no weak-memory effects exist for pure-Python state. Lazily built caches are warmed before scheduling so that point counts are stable.",
         ref="DESIGN.md §2 C13"),
+    "C12": dict(
+        level="exploration",
+        technique="exhaustive enumeration of all short strings over a punctuation alphabet and of delimiter-token sequences, plus pumped input families with a measured growth bound, under a per-case watchdog",
+        text="Every string of length <= 3 (quick) / <= 5 (thorough) over a 29-symbol punctuation soup (all delimiters, quotes, whitespace incl. tab/CR, "
+             "NUL, a letter, a digit) and every sequence of <= 2 / <= 3 tokens out of 56 delimiter tokens (openers and closers of every construct, "
+             "entities, an astral character, U+4E2D, the internal placeholder syntax, CR/LF mixes) is formatted under 4 option sets (default, narrow "
+             "with everything on, negative width, plaintext): no exception, no timeout, final newline in Markdown mode, no added control characters "
+             "or placeholders, no trailing spaces on blank code lines. Every pump unit of <= 2 tokens out of 51 x prefix x suffix x option set is "
+             "formatted at sizes 16..1024 (4096 thorough): CPU time < 10 s and growth exponent <= 2.5 between the two largest sizes above 20 ms.",
+        note="Timing oracle: process CPU time, re-measured before alarming. Declared nesting bound 12 (container-opening units are pumped line-wise beyond it).",
+        ref="DESIGN.md §2 C12"),
     "C05": dict(
         level="model_checking",
         technique="explicit-state model of the greedy filler, exhaustive trace enumeration + replay of every trace against the implementation",
